@@ -138,6 +138,12 @@ def locked_identity(run, ent, op, parents):
                                                      "same_target": other.target is node.target if key[0] == "mat" else None},
                                 entry=ent)
                     return
+    if op["k"] in ("xfer", "calc", "proj", "sel", "dedup", "sort", "slice", "mat") and not ent.alias:
+        # a unary tree-building call keeps every materialization of its input (it may only add nodes around them)
+        for key, node in locked_nodes(parents[0].rel).items():
+            if key[0] == "mat" and res.get(key) is None:
+                run.violate("locked_dropped", {"node": str(node)[:200], "op": op, "returned": str(ent.rel)[:200]}, entry=ent)
+                return
     if op["k"] == "mat":
         # materializing a leaf or a materialization adds no new materialization
         t = parents[0]
